@@ -68,7 +68,9 @@ Fixpoint min_width (t : ty) : nat :=
   end%nat.
 
 (* containers whose elements occupy at least one byte (so that a count is bounded by the
-   bytes that follow it); lists of void / of empty tuples are outside the theorems *)
+   bytes that follow it).  Only the cost theorems (Cost.v, C07) need this: with zero-width
+   elements the number of iterations is not bounded by the input.  The round-trip,
+   exact-consumption and strict-prefix theorems (C02, C03, C08) hold without it. *)
 Fixpoint wfz (t : ty) : bool :=
   match t with
   | TS _ => true
@@ -104,7 +106,7 @@ Fixpoint has_ty (v : tval) (t : ty) {struct v} : bool :=
          end) l fs
   | VTup [], TS SVoid => true
   | VDyn t' v', TS SValue =>
-      good_ty t' && (N.of_nat (String.length (print t')) <=? MaxStringSize) && has_ty v' t'
+      wf_ty t' && (N.of_nat (String.length (print t')) <=? MaxStringSize) && has_ty v' t'
   | _, _ => false
   end.
 
